@@ -66,8 +66,9 @@ Proof.
   assert (LogIds s2) as Hl2.
   { cbn [hops] in H2. rewrite app_assoc, run_group_app in H2.
     destruct (run_group s1 (zf_ops zf ++ act_ops (pageN s1) acts)) as [code sm] eqn:E2. destruct code; [|inversion H2].
-    pose proof (same_run s1 _ s1 sm (body_ops_ok false s1 zf acts Hzf Hacts) (same_start s1 Hd1 (j_mode s1 HJ)) E2) as SM.
-    destruct SM as [_ Smode _ _ _ [Ft [Fc [Fd _]]]].
+    pose proof (same_run s1 _ s1 sm (body_ops_ok false s1 zf acts Hzf Hacts) (same_start s1 Hd1) (j_mode s1 HJ) E2) as SM.
+    pose proof (same_run_mode s1 _ s1 sm (body_ops_ok false s1 zf acts Hzf Hacts) (same_start s1 Hd1) (j_mode s1 HJ) E2) as Smode.
+    destruct SM as [_ _ _ _ [Ft [Fc [Fd _]]]].
     apply run_group_one in H2. cbn [step] in H2.
     destruct (writeable sm && (pageN sm =? 0) && match dbfile sm with [] => true | _ :: _ => false end).
     - unfold op_invalidate_journal in H2. inversion H2; subst s2. cbn [wal_mode with_dirty] in Hm. congruence.
